@@ -14,10 +14,16 @@ ASSUMPTIONS = [
 OUTSIDE = ('regressions in the transcribed ThreadPool glue itself; pools with more than 3 workers; more than one producer; '
            'submissions racing with a worker that is still spinning down (not all workers parked); weak-memory reorderings; '
            'ring overflow fallbacks; more scheduler rounds than stated')
+WAKE_FNS = ['_ZN8dispenso6detail13PoolWakeState15claimAndWakeOneEv', '_ZN8dispenso6detail13PoolWakeState15cascadeWakeSeedEi',
+            '_ZN8dispenso6detail13PoolWakeState9wakeRangeEi', '_ZN8dispenso6detail13PoolWakeState7wakeAllEv',
+            '_ZN8dispenso6detail13PoolWakeState11cascadeWakeEi']
 KIT = {'engine': 'cbmc-seq', 'src': 'submit.cpp', 'models': ['aligned_alloc'],
        'repo_sources': ['dispenso/thread_pool_wake.cpp'],
-       'no_inline': ['_ZL7k_buildv'], 'unwind_fn': {'_ZL7k_buildv': 6},
-       'spin_loops': True, 'unwind': 4, 'timeout': 20, 'rt_defs': {'VF_SPURIOUS': 0}}
+       # out of line = executed without preemption: harness build/teardown and (quick tier) the producer-side
+       # REAL wake functions; the worker-side REAL functions (enterSleep, exitSleep, waitFor, current) are always inlined
+       'no_inline': ['_ZL7k_buildv', '_ZL10k_teardownv', '_ZL13k_cascadeWakei'] + WAKE_FNS,
+       'unwind_fn': dict({'_ZL7k_buildv': 6, '_ZL10k_teardownv': 5}, **{f: 5 for f in WAKE_FNS}),
+       'spin_loops': True, 'unwind': 3, 'timeout': 420, 'rt_defs': {'VF_SPURIOUS': 0}}
 
 
 LIVE = {1: (1, 0, 0), 2: (1, 0, 1), 3: (0, 1, 0), 4: (1, 0, 0), 5: (1, 0, 0)}  # path -> live containers (central, ring, steal)
@@ -34,5 +40,6 @@ def inst(name, path, n, g, steps, bounds, tiers=('quick', 'thorough'), **kw):
 
 
 INSTANCES = [
-    inst('schedule_n2', 1, 2, 2, 3, 'one schedule() onto the fully parked pool'),
+    inst('schedule_n1', 1, 1, 1, 3, 'one schedule() onto the fully parked pool'),
+    inst('schedule_n2', 1, 2, 2, 3, 'one schedule() onto the fully parked pool', tiers=('experimental',)),
 ]
